@@ -594,11 +594,20 @@ static int run_cmd(struct ctx *c, char **t, int nt) {
     else if (!strcmp(kind, "cbefore")) fprintf(f, "#%s\nk=v\n", field);
     else if (!strcmp(kind, "cafter")) fprintf(f, "k=v #%s\n", field);
     else if (!strcmp(kind, "quoted")) fprintf(f, "k=\"%s\"\n", field);
+    else if (!strcmp(kind, "joined")) fprintf(f, "k=v\nk=%s\n", field);
     else fprintf(f, "k=v\n");
     fclose(f);
     econf_file *kf = NULL, *kf2 = NULL, *m = NULL, *other = NULL; char *str = NULL; econf_ext_value *x = NULL;
+    if (!strcmp(kind, "joined")) {              /* JOIN_SAME_ENTRIES=1: the second definition is appended to the first */
+      char *opt; if (asprintf(&opt, "JOIN_SAME_ENTRIES=1;PARSING_DIRS=%s", dir) < 0) opt = NULL;
+      e = econf_newKeyFile_with_options(&kf, opt); free(opt);
+      if (!e) e = econf_readConfig(&kf, NULL, NULL, "long", "conf", "=", "#");
+      if (e) { econf_freeFile(kf); kf = NULL; }
+      LEV("readConfig", e, e ? NULL : "HT");
+    } else {
     e = econf_readFile(&kf, path, "=", "#");
     LEV("readFile", e, e ? NULL : "HT");
+    }
     if (!e) {
       for (int round = 0; round < 3; round++) {
         econf_file *q = kf; const char *tag = round == 0 ? "" : round == 1 ? "merge+" : "write+read+";
@@ -609,6 +618,8 @@ static int run_cmd(struct ctx *c, char **t, int nt) {
         if (!strcmp(kind, "value") || !strcmp(kind, "quoted")) {
           snprintf(api, sizeof api, "%sgetStringValue", tag); e = econf_getStringValue(q, g, k, &str); LEV(api, e, e ? NULL : str); if (!e) free(str);
           snprintf(api, sizeof api, "%sgetExtValue.values", tag); e = econf_getExtValue(q, g, k, &x); LEV(api, e, (e || !x->values[0]) ? NULL : x->values[0]); if (!e) econf_freeExtValue(x);
+        } else if (!strcmp(kind, "joined")) {
+          snprintf(api, sizeof api, "%sgetStringValue", tag); e = econf_getStringValue(q, g, k, &str); LEV(api, e, e ? NULL : (strchr(str, '\n') ? strchr(str, '\n') + 1 : NULL)); if (!e) free(str);
         } else if (!strcmp(kind, "contline")) {
           snprintf(api, sizeof api, "%sgetStringValue", tag); e = econf_getStringValue(q, g, k, &str); LEV(api, e, e ? NULL : (strchr(str, '\n') ? strchr(str, '\n') + 2 : NULL)); if (!e) free(str);
           snprintf(api, sizeof api, "%sgetExtValue.values", tag); e = econf_getExtValue(q, g, k, &x); LEV(api, e, (e || !x->values[0] || !x->values[1]) ? NULL : x->values[1]); if (!e) econf_freeExtValue(x);
